@@ -11,6 +11,7 @@ import (
 	textwire "github.com/textwire/textwire/v2"
 	"pgregory.net/rapid"
 	"verif/lib/harness"
+	"verif/lib/spec"
 )
 
 // C15 — one loaded Template and the string API are safe for concurrent use.
@@ -50,6 +51,10 @@ func c15Setup(cs histCase) (*histEnv, string) {
 
 func c15Ops(base []histOp) []histOp {
 	d := specData(map[string]any{"name": "Zed", "items": []int{3, 4, 5}, "flag": false})
+	// data with pointers at several depths (each call builds its own values)
+	user := spec.Ptr(spec.Struct([]string{"Name", "Tags", "Boss"}, []*spec.Value{spec.String("Ann"), spec.Slice(spec.PtrTo(spec.T(spec.TString)), spec.Ptr(spec.String("a")), spec.Ptr(spec.String("b"))),
+		spec.Ptr(spec.Struct([]string{"Name"}, []*spec.Value{spec.String("Boss")}))}))
+	dp := (&spec.Data{}).Add("user", user).Add("n", spec.Ptr(spec.Ptr(spec.IntOf(spec.TInt, 5)))).Add("m", spec.Map(spec.T(spec.TAny), []string{"p"}, []*spec.Value{spec.Any(spec.Ptr(spec.Float64(1.5)))}))
 	return append(append([]histOp{}, base...),
 		histOp{Kind: "evalstring", Src: "{{ name.shout() }} {{ 21.double() }} @each(i in items){{ i }}@end", Data: d},
 		histOp{Kind: "string", Name: "plain", Data: d},
@@ -58,6 +63,8 @@ func c15Ops(base []histOp) []histOp {
 		// built-ins whose implementation could share state between calls (random source, buffers); results made order-independent
 		histOp{Kind: "evalstring", Src: "{{ items.shuffle().len() }} {{ [1, 2, 3, 4, 5].shuffle().contains(3) }} {{ items.contains(items.rand()) }} {{ [7, 8, 9].shuffle().shuffle().len() }}", Data: d},
 		histOp{Kind: "evalstring", Src: "{{ name.upper().lower().capitalize().reverse().repeat(3).truncate(5, '..') }} {{ 'a,b,c'.split(',').reverse().append('d').prepend('z').slice(1, 4) }} {{ 3.5.ceil() + 2.2.floor() + 7.abs() }} {{ 12.decimal() }} {{ '  x '.trim().len() }} {{ items.len() + name.first().len() }} {{ true.then('y', 'n') }}", Data: d},
+		histOp{Kind: "evalstring", Src: "{{ user.name }} {{ user.boss.name }} @each(t in user.tags){{ t }}@end {{ n + 1 }} {{ m.p }}", Data: dp},
+		histOp{Kind: "string", Name: "plain", Data: dp}, histOp{Kind: "response", Name: "failing", Data: dp},
 		histOp{Kind: "string", Name: "missing/one", Data: d}, histOp{Kind: "response", Name: "missing/two", Data: d}, histOp{Kind: "string", Name: "missing/three", Data: nil},
 		histOp{Kind: "response", Name: "missing/four", Data: nil}, histOp{Kind: "string", Name: "layouts/main", Data: d},
 	)
